@@ -120,7 +120,8 @@ fn envs(rep: &mut Report) -> Vec<AppEnv> {
 /* ------------------------------------------------------------------ C13 HTTP */
 
 pub fn http_requests() -> Vec<Vec<u8>> {
-    let targets: Vec<Vec<u8>> = vec![b"/".to_vec(), b"/a".to_vec(), [b"/".to_vec(), vec![b'x'; 200]].concat(), b"/\xff\xfe".to_vec(), b"/a?b=c".to_vec()];
+    let long = |n: usize| [b"/".to_vec(), vec![b'x'; n - 1]].concat();
+    let targets: Vec<Vec<u8>> = vec![b"/".to_vec(), b"/a".to_vec(), long(201), b"/\xff\xfe".to_vec(), b"/a?b=c".to_vec(), long(255), long(256), long(1023), long(1024), long(1025), long(1300)];
     let versions = ["1.1", "1.0", "2.0", "10.11"];
     let hdrs: Vec<Vec<u8>> = vec![b"Host: x".to_vec(), b"A:b".to_vec(), [b"X: ".to_vec(), vec![b'y'; 100]].concat(), b"Content-Length: 5".to_vec()];
     let mut hlists: Vec<Vec<usize>> = vec![vec![]];
@@ -226,7 +227,7 @@ pub fn fault(r: &[u8], k: u64) -> Vec<u8> {
 }
 
 pub fn run_c13(rep: &mut Report, thorough: bool) {
-    rep.rule = "request grammar product (9 methods x 5 targets incl. non-UTF-8 and 200-byte x 4 versions x header lists of length 0..2 over 4 headers x 3 line-end modes x with/without body) and, for a core subset, EVERY single-byte deletion, every substitution and insertion from an 11-symbol alphabet at every position, and every proper prefix; over UDP and a fresh validated TCP flow, 2 port pairs, both IP versions; each judged by the independent recogniser of the statement's grammar and the response validator (status line, WWW-Authenticate, Content-Length == body bytes)".into();
+    rep.rule = "request grammar product (9 methods x 11 targets incl. non-UTF-8 and lengths 1..1300 (the longest still fits one segment) x 4 versions x header lists of length 0..2 over 4 headers x 3 line-end modes x with/without body) and, for a core subset, EVERY single-byte deletion, every substitution and insertion from an 11-symbol alphabet at every position, and every proper prefix; over UDP and a fresh validated TCP flow, 2 port pairs, both IP versions; each judged by the independent recogniser of the statement's grammar and the response validator (status line, WWW-Authenticate, Content-Length == body bytes)".into();
     rep.assumptions = vec!["abstentions (lenient corners the statement does not settle): empty version numerals, a CR not followed by LF, request-target containing CR/LF, header line starting with ':'".into()];
     let reqs = http_requests();
     let core = http_core();
@@ -238,6 +239,14 @@ pub fn run_c13(rep: &mut Report, thorough: bool) {
         let stride: u64 = if thorough { 1 } else { 5 };
         let n = reqs.len() as u64 / stride;
         sweep_app(rep, &env, &format!("http-grammar-{}", tag), "request grammar product x transport/IP/port paths", n * np, |i| (sel(i % np), reqs[((i / np) * stride + (i % stride)) as usize % reqs.len()].clone()));
+        // request-target length: every length 1..1400 (all fit one segment / datagram)
+        sweep_app(rep, &env, &format!("http-target-length-{}", tag), "GET with a request-target of every length 1..1400 x {UDP, TCP}", 1400 * 2, |i| {
+            let n = (i / 2 + 1) as usize;
+            let mut r = b"GET /".to_vec();
+            r.extend(std::iter::repeat(b'y').take(n - 1));
+            r.extend_from_slice(b" HTTP/1.1\r\nHost: x\r\n\r\n");
+            (if i % 2 == 0 { Path { tcp: false, v6: false, ports: 0 } } else { Path { tcp: true, v6: true, ports: 1 } }, r)
+        });
         // single faults
         let ncore: usize = if thorough { core.len() } else { 24 };
         let cstep = core.len() / ncore;
@@ -399,11 +408,12 @@ pub fn run_c15(rep: &mut Report, thorough: bool) {
             (paths[d[2] as usize], m)
         });
         // attribute lists, well-formed: 0..3 attributes, in the magic form padded to >= 256 bytes and in short form
-        let types = [0x0001u16, 0x0003, 0x0006, 0x8022, 0xffff];
+        // 0xff03 stands for "CHANGE-REQUEST without the change-port flag" (sent as type 0x0003)
+        let types = [0x0001u16, 0x0003, 0xff03, 0x0006, 0x8022, 0xffff];
         let lens = [0usize, 4, 8, 12, 20];
         let na = (types.len() * lens.len()) as u64;
         let dims = [2u64, 4, na, na, na, 4];
-        sweep_app(rep, &env, &format!("stun-attrs-{}", tag), "attribute lists (count 0..3) over 5 types x 5 declared=actual lengths, {short, >=256-byte} magic form x 4 paths", product(&dims), |i| {
+        sweep_app(rep, &env, &format!("stun-attrs-{}", tag), "attribute lists (count 0..3) over 6 types (CHANGE-REQUEST with and without the port flag) x 5 declared=actual lengths, {short, >=256-byte} magic form x 4 paths", product(&dims), |i| {
             let d = unrank(i, &dims);
             let mut body = Vec::new();
             for k in 0..d[1] {
@@ -416,7 +426,10 @@ pub fn run_c15(rep: &mut Report, thorough: bool) {
                 if t == 3 && l == 4 {
                     val[3] = 2;
                 }
-                body.extend(stun_attr(t, &val));
+                if t == 0xff03 && l == 4 {
+                    val[3] = 4;
+                }
+                body.extend(stun_attr(if t == 0xff03 { 3 } else { t }, &val));
             }
             if d[0] == 1 {
                 body.extend(stun_attr(0x8022, &[b's'; 256]));
@@ -593,6 +606,62 @@ pub fn run_c16(rep: &mut Report, thorough: bool) {
             &mut rep.sink,
         );
         rep.stage(&format!("rpc-dst-{}", tag), "6 destination addresses per IP version x 6 portmapper calls", 72, t0);
+        // replies of every size the responder can produce: destination addresses whose printed
+        // form has every length (IPv6 up to 39 characters), x destination ports with 1..5 digits,
+        // over UDP and over TCP (fresh validated flow; cookies learned first)
+        {
+            let t0 = std::time::Instant::now();
+            let mut dsts: Vec<Ip> = vec![srv4(), Ip::V4([100, 100, 100, 100]), Ip::V4([255, 255, 255, 255]), srv6(), srv6b()];
+            for a in ["2001:db8:1234:5678:9abc:def0:1357:2468", "2001:db8:1:2:3:4:5:6", "2001:db8:1234::5678:9abc", "ffff:ffff:ffff:ffff:ffff:ffff:ffff:ffff", "2001:db8:0:1:1:1:1:1", "fe80::1234:5678:9abc:def0"] {
+                dsts.push(Ip::parse(a));
+            }
+            let ports = [1u16, 80, 111, 2049, 65535];
+            let mut fl: Vec<Flow> = Vec::new();
+            for d in &dsts {
+                for p in ports {
+                    let mut f = flow(!d.is_v4(), 40000, p);
+                    f.sip = *d;
+                    fl.push(f);
+                }
+            }
+            let plain = AppEnv { cfg: crate::props::cfg_plain(), cookies: HashMap::new() };
+            let ck = learn_cookies(&plain.cfg, &fl).unwrap_or_default();
+            let dims = [fl.len() as u64, calls.len() as u64, 2];
+            let opts = RunOpts::new(&format!("rpc-reply-sizes-{}", tag)).stateful().chunk(64).no_monitor();
+            let cfgp = plain.cfg.clone();
+            if env.cfg.self_ips.is_empty() {
+                engine::run(
+                    &plain.cfg,
+                    product(&dims),
+                    &opts,
+                    |i| {
+                        let d = unrank(i, &dims);
+                        let f = &fl[d[0] as usize];
+                        let (v, pr) = calls[d[1] as usize];
+                        let body = apprpc::build_call(0x61626364, 2, 100000, v, pr, &[], &[]);
+                        if d[2] == 0 {
+                            vec![Cmd::Frame(f.udp(&body))]
+                        } else {
+                            let c = ck.get(&key_of(f)).copied().unwrap_or(0).wrapping_add(1);
+                            vec![Cmd::Frame(f.tcp(1000, c, F_PSH | F_ACK, &apprpc::with_record_mark(&body)))]
+                        }
+                    },
+                    |it: &Item, sk: &mut Sink| {
+                        let model = Model::new();
+                        engine::judge_item(&cfgp, &model, &ck, it, it.cmds.len(), "rpc-reply-sizes", sk);
+                        sk.count("frames", 1);
+                        if let Some(r) = &it.outs[1].reply {
+                            sk.count("rpc_reply_bytes_max_seen", 0);
+                            if r.len() > 300 {
+                                sk.class("rpc-reply-over-256-bytes");
+                            }
+                        }
+                    },
+                    &mut rep.sink,
+                );
+                rep.stage(&format!("rpc-reply-sizes-{}", tag), "11 destination addresses (printed forms of every length) x 5 destination ports x 6 portmapper calls x {UDP, TCP}", product(&dims), t0);
+            }
+        }
     }
     rep.states = rep.sink.classes.len() as u64;
 }
@@ -694,6 +763,92 @@ pub fn run_c17(rep: &mut Report, thorough: bool) {
             g[(i / 256) as usize] = i as u8;
             (pu, appsmb::smb2_negotiate(&Smb2Hdr::new(0), &[0x0302], &g))
         });
+        // the selected dialect is a function of WHICH dialects are offered and in which order
+        // they first appear: repeating an entry must not change the dialect selected
+        // (differential: list L vs L with repetitions removed)
+        {
+            let t0 = std::time::Instant::now();
+            let dedup = |l: &Vec<usize>| -> Vec<usize> {
+                let mut o: Vec<usize> = Vec::new();
+                for x in l {
+                    if !o.contains(x) {
+                        o.push(*x);
+                    }
+                }
+                o
+            };
+            let with_dups1: Vec<&Vec<usize>> = s1.iter().filter(|l| dedup(l).len() != l.len()).collect();
+            let with_dups2: Vec<&Vec<usize>> = s2.iter().filter(|l| dedup(l).len() != l.len()).collect();
+            let total = (with_dups1.len() + with_dups2.len()) as u64;
+            let opts = RunOpts::new(&format!("smb-dialect-repetition-{}", tag)).no_monitor();
+            let f = flow4(40000, 445);
+            let cfgc = env.cfg.clone();
+            engine::run(
+                &env.cfg,
+                total,
+                &opts,
+                |i| {
+                    let i = i as usize;
+                    if i < with_dups1.len() {
+                        let l = with_dups1[i];
+                        let a: Vec<&str> = l.iter().map(|k| d1[*k]).collect();
+                        let b: Vec<&str> = dedup(l).iter().map(|k| d1[*k]).collect();
+                        vec![Cmd::Frame(f.udp(&appsmb::smb1_negotiate(&Smb1Hdr::new(0x72), &a))), Cmd::Frame(f.udp(&appsmb::smb1_negotiate(&Smb1Hdr::new(0x72), &b)))]
+                    } else {
+                        let l = with_dups2[i - with_dups1.len()];
+                        let a: Vec<u16> = l.iter().map(|k| d2[*k]).collect();
+                        let b: Vec<u16> = dedup(l).iter().map(|k| d2[*k]).collect();
+                        vec![Cmd::Frame(f.udp(&appsmb::smb2_negotiate(&Smb2Hdr::new(0), &a, &[5; 16]))), Cmd::Frame(f.udp(&appsmb::smb2_negotiate(&Smb2Hdr::new(0), &b, &[5; 16])))]
+                    }
+                },
+                |it: &Item, sk: &mut Sink| {
+                    sk.count("frames", 2);
+                    let i = it.idx as usize;
+                    let app = |k: usize| it.outs[k].reply.as_deref().and_then(crate::mask::app_payload).map(|(_, p)| p);
+                    let (ra, rb) = (app(0), app(1));
+                    let sel: Option<(String, String)> = match (&ra, &rb) {
+                        (Some(a), Some(b)) => {
+                            if i < with_dups1.len() {
+                                let l = with_dups1[i];
+                                let dl = dedup(l);
+                                // DialectIndex: NetBIOS(4) + SMB1 header(32) + WordCount(1)
+                                let ia = a.get(37..39).map(|x| u16::from_le_bytes([x[0], x[1]]) as usize);
+                                let ib = b.get(37..39).map(|x| u16::from_le_bytes([x[0], x[1]]) as usize);
+                                match (ia, ib) {
+                                    (Some(ia), Some(ib)) => Some((l.get(ia).map(|k| d1[*k].to_string()).unwrap_or(format!("index {}", ia)), dl.get(ib).map(|k| d1[*k].to_string()).unwrap_or(format!("index {}", ib)))),
+                                    _ => None,
+                                }
+                            } else {
+                                // DialectRevision: NetBIOS(4) + SMB2 header(64) + 4
+                                let ra = a.get(72..74).map(|x| u16::from_le_bytes([x[0], x[1]]));
+                                let rb = b.get(72..74).map(|x| u16::from_le_bytes([x[0], x[1]]));
+                                match (ra, rb) {
+                                    (Some(x), Some(y)) => Some((format!("{:#06x}", x), format!("{:#06x}", y))),
+                                    _ => None,
+                                }
+                            }
+                        }
+                        (None, None) => None,
+                        _ => Some(("answered".into(), "not answered".into())),
+                    };
+                    if let Some((x, y)) = sel {
+                        if x != y {
+                            sk.violation(crate::engine::Violation {
+                                prop: "C17".into(),
+                                key: format!("dialect-depends-on-repetition:{}", if i < with_dups1.len() { "smb1" } else { "smb2" }),
+                                what: format!("negotiate with a repeated dialect selects '{}', the same list without the repetition selects '{}'", x, y),
+                                cfg: cfgc.clone(),
+                                cmds: it.cmds.to_vec(),
+                                idx: it.idx,
+                                stage: "smb-dialect-repetition".into(),
+                            });
+                        }
+                    }
+                },
+                &mut rep.sink,
+            );
+            rep.stage(&format!("smb-dialect-repetition-{}", tag), "every dialect list with a repetition (SMB1: sequences over 5 strings, SMB2: over 7 revisions) vs the same list without repetitions: same dialect selected", total, t0);
+        }
         // inconsistent counts (C01 + abstention)
         sweep_app(rep, &env, &format!("smb-counts-{}", tag), "SMB2 DialectCount 0..8 vs 3 dialects present; SMB1 ByteCount -3..+3; blob length field 0..12 vs 8 bytes", 9 + 7 + 13, |i| {
             if i < 9 {
